@@ -10,7 +10,7 @@ R-C04-3  the Boolean / fixed-point wrappers carry no second copy of the value
 """
 import ast
 
-from ..hints import Valuer, all_cases, paths_to, Undecidable
+from ..hints import Valuer, all_cases, paths_to, Undecidable, pre_assume, replay
 from ..loader import norm, AnalysisError, parents
 from ..poly import P
 from .c01 import base_env
@@ -62,19 +62,12 @@ def check(repo, rep, tier):
                 v = Valuer(base_env(fi) if fi is not None else {})
                 v.uninterp = True
                 if path is not None:
-                    for t, pol in path.conds:
-                        v.assume(t, pol)
+                    pre_assume(v, path)
                 return v
 
             def build(v, path=path):
                 if path is not None:
-                    for name, node in path.assigns:
-                        try:
-                            v.env[name] = v.val(node)
-                        except Undecidable:
-                            v.env[name] = P.sym("?%s" % name)
-                    for t, pol in path.conds:
-                        v.assume(t, pol)
+                    replay(v, path)
                 return v._p(c.args[0]) - v._p(c.args[1])
             for desc, p, v in all_cases(build, assumptions):
                 ncases += 1
@@ -131,8 +124,19 @@ def check(repo, rep, tier):
                                      "%s/lc/%s" % (fi.fq, norm(t)))
                         continue
 
-                    def is_mod(e):
-                        return norm(e) in MODULUS_EXPRS or (isinstance(e, ast.Name) and (m.name, e.id) in modconsts)
+                    def is_mod(e, fi=fi):
+                        if norm(e) in MODULUS_EXPRS or (isinstance(e, ast.Name) and (m.name, e.id) in modconsts):
+                            return True
+                        # a local (of this function or of the enclosing one, for a closure) bound once to the modulus
+                        from ..flatten import resolve_locals as _rl4
+                        f_ = fi
+                        while f_ is not None and isinstance(e, ast.Name):
+                            if isinstance(f_.node, ast.FunctionDef):
+                                r_ = _rl4(f_.node, e)
+                                if norm(r_) in MODULUS_EXPRS:
+                                    return True
+                            f_ = f_.parent
+                        return False
                     good = False
                     if op is not None and isinstance(op, ast.Mod) and is_mod(v):
                         good = True
